@@ -28,7 +28,7 @@ var (
 				lst := args[0].List().V
 				idx := int(args[1].Num().V)
 				defVl := args[2]
-				if idx >= len(lst) {
+				if idx < 0 || idx >= len(lst) {
 					return defVl
 				}
 				el := lst[idx]
